@@ -66,11 +66,11 @@ def run(ctx):
             ctx.check(bool(ok), "C07.a", f"{c.name}.__init__:validated-edges", f"edges passed as `{want}=` to the validating base constructor",
                       f"{c.name} does not hand its edges to BinningBase.__init__({want}=...)", init.where)
 
-    def raises_when(fi, pred, exc="ValueError"):
+    def raises_when(fi, pred, exc="ValueError", when=True):
         for path in function_paths(fi.node):
             if end_kind(path) == "raise" and exc in U(path[-1][2]):
                 for s in path:
-                    if s[0] == "cond" and s[2] and pred(s[1]):
+                    if s[0] == "cond" and s[2] == when and pred(s[1]):
                         return True
         return False
 
@@ -78,9 +78,9 @@ def run(ctx):
         return isinstance(e, ast.Compare) and len(e.ops) == 1 and U(e.left) == left and type(e.ops[0]) in ops and U(e.comparators[0]) == right
     binit = BB.methods["__init__"]
     ctx.saw(binit)
-    ctx.check(raises_when(binit, lambda e: U(e) == "not is_rising(bins)"), "C07.a", "BinningBase.__init__:bins-rising", "bins not rising -> ValueError",
+    ctx.check(raises_when(binit, lambda e: U(e) == "is_rising(bins)", when=False), "C07.a", "BinningBase.__init__:bins-rising", "bins not rising -> ValueError",
               "explicit edge pairs are no longer checked with is_rising", binit.where)
-    ctx.check(raises_when(binit, lambda e: U(e) == "not np.all(numpy_bins[1:] > numpy_bins[:-1])"), "C07.a", "BinningBase.__init__:numpy-bins-rising",
+    ctx.check(raises_when(binit, lambda e: U(e) == "np.all(numpy_bins[1:] > numpy_bins[:-1])", when=False), "C07.a", "BinningBase.__init__:numpy-bins-rising",
               "numpy-style edges must strictly rise", "numpy-style edges are no longer required to rise strictly", binit.where)
     t = U(binit.node)
     ctx.check("bins = make_bin_array(bins)" in t and "numpy_bins = to_numpy_bins(numpy_bins)" in t, "C07.a", "BinningBase.__init__:normalised",
@@ -96,7 +96,7 @@ def run(ctx):
               "log_width <= 0 -> ValueError (zero width would give empty-width bins, negative falling ones)",
               "a non-positive logarithmic width is not refused (`<` lets zero-width bins through)", ex.where)
     nb = m.cls("NumpyBinning").methods["__init__"]
-    ctx.check(raises_when(nb, lambda e: U(e) == "not is_rising(numpy_bins)"), "C07.a", "NumpyBinning.__init__:rising", "edges not rising -> ValueError",
+    ctx.check(raises_when(nb, lambda e: U(e) == "is_rising(numpy_bins)", when=False), "C07.a", "NumpyBinning.__init__:rising", "edges not rising -> ValueError",
               "NumpyBinning no longer checks its edges", nb.where)
     mba = bu.functions["make_bin_array"]
     ctx.saw(mba)
